@@ -23,6 +23,7 @@ pub mod rscript;
 pub mod wscript;
 
 pub mod c01_reader;
+pub mod c02_converge;
 pub mod c03_acknack;
 pub mod c04_writer;
 pub mod c05_frag;
@@ -145,6 +146,7 @@ pub struct ExhaustiveReport {
 pub fn registry() -> Vec<Property> {
   let mut v = Vec::new();
   v.push(c01_reader::property());
+  v.push(c02_converge::property());
   v.push(c03_acknack::property());
   v.push(c04_writer::property());
   v.push(c05_frag::property());
